@@ -1,4 +1,5 @@
 import PGV.Props.C08
+import PGV.Proofs.Frame
 
 /-!
 # C12 â€” a call's result depends only on its own arguments and stays fixed afterwards
@@ -85,6 +86,13 @@ theorem C12_history_independent (emptyMap : RMap) (eval : List UInt8 â†’ RMap â†
         rcases hm with rfl | hm
         Â· exact h2
         Â· exact hinv.2 b hm
+
+/-- what a struct validation writes (text and group members) is the same whatever the builder already
+holds: it is computed from the arguments alone and appended -/
+theorem C12_writes_independent_of_buffer (cfg : PGV.Model.StructCfg) (name : PGV.Bytes) (v : PGV.Model.GoVal) (g : Bool)
+    (st : PGV.Model.WSt) :
+    PGV.Model.validate cfg name v g st = PGV.Proofs.Frame.lift st (PGV.Model.validate cfg name v g {}) :=
+  PGV.Proofs.Frame.Frame_validate cfg name v g st
 
 /-- at process start the pools are empty: the invariant holds -/
 theorem C12_pool_inv_init : PoolInv ([] : List (VObj RMap Fns)) [] := by
